@@ -176,7 +176,9 @@ def dense(sp):
         return q @ np.diag(A(sp[3])) @ q.T
     if k == "SA":  # softabs: array, coeff
         ev, q = np.linalg.eigh(A(sp[1]))
-        return q @ np.diag(ev / np.tanh(ev * sp[2])) @ q.T
+        with np.errstate(all="ignore"):  # x coth(c x) -> 1/c as x -> 0 (removable singularity)
+            f = np.where(np.abs(ev * sp[2]) < 1e-8, 1.0 / sp[2], ev / np.tanh(ev * sp[2]))
+        return q @ np.diag(f) @ q.T
     if k == "PP":  # dense pd product: R, P|None
         r = dense(sp[1]) if isinstance(sp[1][0], str) else A(sp[1])
         p = np.eye(r.shape[1]) if sp[2] is None else dense(sp[2])
@@ -516,10 +518,16 @@ class Gen:
                 for _ in range(50):
                     a = rand_rect(rng, n, n, 4)
                     a = (a + a.T) / 2
-                    if np.min(np.abs(np.linalg.eigvalsh(a))) > 0.1:  # softabs(0) is 0/0 in the code
+                    if np.min(np.abs(np.linalg.eigvalsh(a))) > 0.1:
                         break
                 else:
                     a = np.eye(n)
+                if rng.random() < 0.15:
+                    # an exactly zero eigenvalue of the unregularised array (softabs(0) = 1/coeff, a removable
+                    # singularity of x / tanh(coeff x)): diagonal with a zero entry, conjugated by a permutation
+                    d = np.array([0.0] + [float(dy_nz(rng, 2, 12, 4)) for _ in range(n - 1)])
+                    perm = rng.permutation(n)
+                    a = np.diag(d)[np.ix_(perm, perm)]
                 return ["SA", L(a), float(self.choice([0.5, 1.0, 2.0]))]
             if t == "PP":
                 m2 = n + int(rng.integers(1, 3))
